@@ -31,3 +31,10 @@ Theorem C09_oracle_decides : forall bs acked keys rd,
   acked_durable_b bs acked keys rd = true <-> acked_durable bs acked keys rd.
 Proof. exact acked_durable_b_spec. Qed.
 Print Assumptions C09_oracle_decides.
+
+(** the oracle for a second incarnation (new acknowledged writes on the recovered store, clean
+    close, reopen) decides its specification *)
+Theorem C09_second_oracle_decides : forall keys r1 bs2 r2,
+  second_ok_b keys r1 bs2 r2 = true <-> second_ok keys r1 bs2 r2.
+Proof. exact second_ok_b_spec. Qed.
+Print Assumptions C09_second_oracle_decides.
